@@ -12,10 +12,17 @@ import (
 // P7 (simplified): which mutexes are held at an instruction
 
 var lockMethods = map[string]string{
-	"(*sync.Mutex).Lock": "x", "(*sync.RWMutex).Lock": "x", "(*sync.RWMutex).RLock": "r",
+	"(*sync.Mutex).Lock": "x", "(*sync.RWMutex).Lock": "x", "(*sync.RWMutex).RLock": "r", "(iface sync.Locker).Lock": "x",
 }
 var unlockMethods = map[string]string{
-	"(*sync.Mutex).Unlock": "x", "(*sync.RWMutex).Unlock": "x", "(*sync.RWMutex).RUnlock": "r",
+	"(*sync.Mutex).Unlock": "x", "(*sync.RWMutex).Unlock": "x", "(*sync.RWMutex).RUnlock": "r", "(iface sync.Locker).Unlock": "x",
+}
+
+func lockOperand(c *ssa.Call) ssa.Value {
+	if c.Call.IsInvoke() {
+		return c.Call.Value
+	}
+	return c.Call.Args[0]
 }
 
 // Held is a mutex known to be held.
@@ -58,9 +65,9 @@ func HeldAt(at ssa.Instruction) []Held {
 		}
 	})
 	consider := func(l *ssa.Call, from ssa.Instruction, mode string) {
-		p := LockPath(l.Call.Args[0])
+		p := LockPath(lockOperand(l))
 		for _, u := range unlocks {
-			if LockPath(u.Call.Args[0]) != p {
+			if LockPath(lockOperand(u)) != p {
 				continue
 			}
 			if CanReach(from, u) && CanReach(u, at) {
@@ -82,7 +89,7 @@ func HeldAt(at ssa.Instruction) []Held {
 			pb := b.Preds[0]
 			if ifi, ok := pb.Instrs[len(pb.Instrs)-1].(*ssa.If); ok {
 				if tc, ok := ifi.Cond.(*ssa.Call); ok && strings.HasSuffix(CalleeName(&tc.Call), ").TryLock") &&
-					LockPath(tc.Call.Args[0]) == LockPath(l.Call.Args[0]) && pb.Succs[0] == b.Succs[0] && pb.Succs[1] == b {
+					LockPath(tc.Call.Args[0]) == LockPath(lockOperand(l)) && pb.Succs[0] == b.Succs[0] && pb.Succs[1] == b {
 					j := b.Succs[0]
 					if j == at.Block() || j.Dominates(at.Block()) {
 						consider(l, j.Instrs[0], mode)
